@@ -197,11 +197,24 @@ def run(ctx):
         same_dim = [o for o in orders if o[1].ordering_cone.W.shape[1] == m]
         for name, order in rng.sample(same_dim, 2):
             f1_jobs.append((name, order, Y, ds, K, m))
-    for name, order, Y, ds, K, m in f1_jobs:
+    # deterministic tie cases: two predicted designs with IDENTICAL objective vectors are the only ones that eps-cover a
+    # missed Pareto design (all designs of one value are as good as each other: none of them may be dropped)
+    f1_jobs = [j + (None,) for j in f1_jobs]
+    for m, Yt, predt in ((2, [[1.0, 0.0], [1.0, 0.0], [0.0, 1.0], [0.875, 0.0625]], [0, 1, 2]),
+                         (2, [[0.0, 1.0], [0.5, 0.5], [0.5, 0.5], [0.5625, 0.375], [1.0, 0.0]], [2, 1]),
+                         (3, [[1.0, 0.0, 0.0], [1.0, 0.0, 0.0], [0.0, 1.0, 0.0], [0.0, 0.0, 1.0], [0.9375, 0.0625, 0.0]], [1, 0, 2, 3]),
+                         (2, [[0.25, 0.25], [0.25, 0.25], [0.25, 0.25], [0.3125, 0.125]], [0, 1, 2])):
+        dname = algrun.make_ds([[k / 16.0, 0.5] for k in range(len(Yt))], Yt)
+        ds = getattr(dsmod, dname)()
+        for name, order in [o for o in orders if o[1].ordering_cone.W.shape[1] == m][:3]:
+            f1_jobs.append((name, order, Yt, ds, len(Yt), m, (predt, 0.25)))
+    for name, order, Y, ds, K, m, forced in f1_jobs:
         W = order.ordering_cone.W
         true = [int(x) for x in order.get_pareto_set(np.array(Y))]
-        mode = rng.choice(["exact", "subset", "superset", "random", "shuffled"])
-        if mode == "exact":
+        mode = rng.choice(["exact", "subset", "superset", "random", "shuffled"]) if forced is None else "forced"
+        if mode == "forced":
+            pred = list(forced[0])
+        elif mode == "exact":
             pred = list(true)
         elif mode == "subset":
             pred = true[:max(1, len(true) - 1)]
@@ -211,7 +224,7 @@ def run(ctx):
             pred = list(true); rng.shuffle(pred)
         else:
             pred = rng.sample(range(K), rng.randint(1, K))
-        eps = rng.choice([0.0, 0.1, 0.25, 1.0])
+        eps = rng.choice([0.0, 0.1, 0.25, 1.0]) if forced is None else forced[1]
         f = float(calculate_epsilonF1_score(ds, order, np.array(true), list(pred), eps))
         f2 = float(calculate_epsilonF1_score(ds, order, np.array(true), list(reversed(pred)), eps))
         fbig = float(calculate_epsilonF1_score(ds, order, np.array(true), list(pred), eps + 0.5))
@@ -228,6 +241,11 @@ def run(ctx):
         tp = sum(1 for p in pred if dl[p] <= eps)
         missed = sorted(set(true) - set(pred))
         unc = int(get_uncovered_size(np.array(Y)[missed].reshape(len(missed), m), np.array(Y)[pred], eps, W))
+        # the uncovered count is, by definition, the number of missed designs that no predicted design eps-covers
+        # (pairwise is_covered is itself checked against certificates above)
+        unc_def = sum(1 for i in missed if not any(is_covered(np.array(Y[i]), np.array(Y[j]), eps, W) for j in pred))
+        if unc != unc_def:
+            viol.append({"signature": "uncovered-count", "message": f"get_uncovered_size={unc} but {unc_def} of the missed designs {missed} are eps-covered by no predicted design (pairwise is_covered): {info}", "replay": {"kind": "f1", "info": info}})
         want = 2 * tp / (2 * tp + (len(pred) - tp) + unc) if (2 * tp + (len(pred) - tp) + unc) else float("nan")
         if not (np.isnan(want) and np.isnan(f)) and abs(f - want) > 1e-12:
             viol.append({"signature": "f1-formula", "message": f"F1={f} but 2tp/(2tp+fp+uncovered)={want} with tp={tp}, |pred|={len(pred)}, uncovered={unc}: {info}", "replay": {"kind": "f1", "info": info}})
